@@ -79,9 +79,13 @@ fn probe(r: &Readers, kv: &Kv, p: &[u8]) -> Result<(), String> {
 
 pub fn probe_all(bytes: &[u8], case: &Case, rng: &mut Rng, ev: &mut Ev, tag: &str) {
     let kv = &case.kv;
-    let d = match refdec::decode(bytes) {
-        Ok(d) => Some(d),
-        Err(_) => None,
+    let d = if bytes.len() > (8 << 20) {
+        None // huge-delta family: too many nodes for the map-based decoder; probes are still judged
+    } else {
+        match refdec::decode(bytes) {
+            Ok(d) => Some(d),
+            Err(_) => None,
+        }
     };
     let readers = match (Fst::new(bytes), Fst::new(bytes.to_vec()), Map::new(bytes), Set::new(bytes.to_vec())) {
         (Ok(raw), Ok(raw_owned), Ok(map), Ok(set)) => Readers { raw, raw_owned, map, set },
@@ -211,7 +215,7 @@ pub fn run(ctx: &Ctx) -> i32 {
             let mut rng = Rng::new(ctx.seed, case.fp());
             let g = GEOMS[case.index % GEOMS.len()];
             let fronts = [Front::RawGeom(g.0, g.1), MAP_FRONTS[case.index % MAP_FRONTS.len()]];
-            let nf = if case.kv.len() > 20_000 || case.family.ends_with("-subsets") { 1 } else { 2 };
+            let nf = if case.kv.len() > 20_000 || case.family.ends_with("-subsets") || case.family == "huge-delta" { 1 } else { 2 };
             for &front in fronts.iter().take(nf) {
                 let tag = format!("{:?}", front);
                 match guard(|| build::build(front, &case.kv)) {
